@@ -23,6 +23,21 @@ def world0 : World :=
     hasExec := fun _ => false, fails := fun _ => false, truth := fun _ => none,
     log := [], recv := fun _ => [], failed := fun _ => false }
 
+/-- rebuild a finite map as a table (the interpreter otherwise walks an ever longer chain of
+`updF` closures); outside `< k` nothing is ever touched, so the initial default is returned -/
+def tab {α} (k : Nat) (f dflt : Nat → α) : Nat → α :=
+  let a := (Array.range k).map f
+  fun i => if h : i < a.size then a[i] else dflt i
+
+def compact (w : World) : World :=
+  { w with
+    g := { w.g with conns := tab (6 * w.n) w.g.conns world0.g.conns },
+    label := tab w.n w.label world0.label,
+    starting := tab w.n w.starting world0.starting,
+    automate := tab w.n w.automate world0.automate,
+    recv := tab (6 * w.n) w.recv world0.recv,
+    failed := tab w.n w.failed world0.failed }
+
 def bit (b : Bool) : String := if b then "1" else "0"
 
 def variants : List (String × Cfg × World) :=
@@ -121,7 +136,7 @@ def step (s : St) (ws : List String) : St × List String :=
         | none => ([], [])
       let res := s.vs.map fun (tag, cfg, w) =>
         let r := pull cfg w t (par ≠ 0) look s.fuel
-        ((tag, cfg, r.1), obsLines s tag w r.1 r.2)
+        ((tag, cfg, compact r.1), obsLines s tag w r.1 r.2)
       ({ s with vs := res.map (·.1), obs := [] }, (res.map (·.2)).flatten)
     | _, _ => (s, ["bad-op"])
   | _ => (s, ["bad-op"])
